@@ -21,10 +21,12 @@ def real_api():
     return bare_script, SCRIPT_FUNCTIONS, BareScriptRuntimeError, BareScriptParserError
 
 
-def hosts(pattern):
+def hosts(pattern, extra=None):
     h = {'hp': gen_prog.host_hp}
     if pattern is not None:
         h['nx'] = gen_prog.make_nx(pattern)
+    if extra:
+        h.update(extra)
     return h
 
 
@@ -41,11 +43,17 @@ def filter_writes(writes, library, host_names):
     return [[k, v] for k, v in writes if k != '$inject' and k not in host_names and not _SKIP_NAME.match(k)]
 
 
-def run_ref(prog, init, pattern, library, fuel=30000, variant=None, bool_num=False, debug=False):
-    g = copy.deepcopy(init)
-    h = hosts(pattern)
-    g.update(h)
-    ref = RefAST(g, library, fuel=fuel, variant=variant, debug=debug, bool_num=bool_num)
+def run_ref(prog, init, pattern, library, fuel=30000, variant=None, bool_num=False, debug=False, extra_hosts=None):
+    g = WatchedGlobals(copy.deepcopy(init))
+    h = hosts(pattern, extra_hosts)
+    g.armed = False
+    for k, v in h.items():
+        dict.__setitem__(g, k, v)
+    for k, v in library.items():  # the library never overwrites a caller-supplied name
+        if k not in g:
+            dict.__setitem__(g, k, v)
+    g.armed = True
+    ref = RefAST(g, library, fuel=fuel, variant=variant, debug=debug, bool_num=bool_num, record=False)
     try:
         res = ref.run(prog)
         status = 'ok'
@@ -61,14 +69,14 @@ def run_ref(prog, init, pattern, library, fuel=30000, variant=None, bool_num=Fal
         else:
             raise
     return {'status': status, 'result': refval.canon(res), 'logs': ref.logs,
-            'writes': filter_writes(ref.writes, library, h), 'globals': user_globals(g, library, h)}
+            'writes': filter_writes(g.writes, library, h), 'globals': user_globals(g, library, h)}
 
 
-def run_real(text, init, pattern, limit=60000, debug=False, parse=None, timeout=20.0, options_extra=None):
+def run_real(text, init, pattern, limit=60000, debug=False, parse=None, timeout=20.0, options_extra=None, extra_hosts=None):
     bare_script, library, rt_err, p_err = real_api()
     parse = parse or bare_script.parse_script
     g = WatchedGlobals(copy.deepcopy(init))
-    h = hosts(pattern)
+    h = hosts(pattern, extra_hosts)
     g.armed = False
     for k, v in h.items():
         dict.__setitem__(g, k, v)
@@ -96,11 +104,22 @@ def run_real(text, init, pattern, limit=60000, debug=False, parse=None, timeout=
     g.armed = False
     return {'status': status, 'result': refval.canon(res), 'logs': logs,
             'writes': filter_writes(g.writes, library, h), 'globals': user_globals(g, library, h),
-            'reads': dict(g.reads), 'count': options.get('statementCount')}
+            'reads': dict(g.reads), 'count': options.get('statementCount'), 'host_after': {k: g.get(k) is v for k, v in h.items()} if g.__setattr__('armed', False) is None else {}}
+
+
+_LOWERING_DEBUG = re.compile(r'^BareScript: Function "(arrayLength|arrayGet)" failed with error:')
+
+
+def _nolower(logs):
+    # debug-mode lines produced by the for-loop lowering when the walked value is not an array (or shrank) are an
+    # artefact no structured reading fixes: dropped on both sides before comparing
+    return [l for l in logs if not _LOWERING_DEBUG.match(l)]
 
 
 def same(a, b):
     """None if the observable behaviour agrees, else the name of the first differing component."""
+    a = dict(a, logs=_nolower(a['logs']))
+    b = dict(b, logs=_nolower(b['logs']))
     if a['status'] != b['status']:
         return 'status'
     if a['status'] == 'diverge':
@@ -119,10 +138,10 @@ VARIANTS = [
 ]
 
 
-def compare_case(prog, init, pattern, acc, prop, library, text=None, case=None, parse=None, debug=False, fuel=4000, limit=60000):
+def compare_case(prog, init, pattern, acc, prop, library, text=None, case=None, parse=None, debug=False, fuel=4000, limit=60000, extra_hosts=None):
     """Run ref first (bounded), then real under an alarm; classify disagreements.
     Returns (verdict, real, ref) where verdict in ok/known/violation/skip/timeout."""
-    ref = run_ref(prog, init, pattern, library, fuel=fuel, debug=debug)
+    ref = run_ref(prog, init, pattern, library, fuel=fuel, debug=debug, extra_hosts=extra_hosts)
     if ref is None:
         acc.count('skipped_unspecified_by_reference')
         return 'skip', None, None
@@ -131,7 +150,7 @@ def compare_case(prog, init, pattern, acc, prop, library, text=None, case=None, 
         return 'skip', None, None
     if text is None:
         text = '\n'.join(pp(prog))
-    real = run_real(text, init, pattern, debug=debug, parse=parse, limit=limit)
+    real = run_real(text, init, pattern, debug=debug, parse=parse, limit=limit, extra_hosts=extra_hosts)
     if real['status'] == 'timeout':
         acc.timeouts += 1
         return 'timeout', real, ref
@@ -141,7 +160,7 @@ def compare_case(prog, init, pattern, acc, prop, library, text=None, case=None, 
     if diff is None:
         return 'ok', real, ref
     for fid, kw in VARIANTS:
-        alt = run_ref(prog, init, pattern, library, fuel=fuel, debug=debug, **kw)
+        alt = run_ref(prog, init, pattern, library, fuel=fuel, debug=debug, extra_hosts=extra_hosts, **kw)
         if alt is not None and same(real, alt) is None:
             for f in fid.split('+'):
                 acc.known_finding(f, text.replace('\n', ' | ')[:300])
